@@ -24,6 +24,9 @@
         first request is judged: immediately), becomes due a few seconds later (short / installed-short), or loses
         its file while the daemon runs (`removed`: the file is taken away while a second post-operation hook holds
         the daemon, the evaluation that follows finds it missing).  A request for the neighbour is judged too.
+      * the same kinds with renew_delay / random_early_renew set at [global] / endpoint / certificate level, or at
+        several levels with different values (`place`, py/ext/c06place.py): the judge's delay / jitter is the most
+        specific configured value.
 """
 import concurrent.futures
 import os
@@ -35,6 +38,7 @@ import cfggen
 import flow
 import mockca
 import vlib
+from ext import c06place
 
 NS = 10 ** 9
 DAY = 86400
@@ -332,6 +336,9 @@ def loop_scenarios(ctx):
                  "neighbour": ["other-account", "same-account"][i % 2]} for i in range(2)]
         scs += [{"kind": "removed", "valid_secs": 90 * DAY, "watch_s": 10, "neighbour": "other-account"},
                 {"kind": "removed", "valid_secs": 90 * DAY, "watch_s": 10}]
+    # the same kinds with the periods set at [global] / endpoint / certificate level, or at several levels with
+    # different values (py/ext/c06place.py computes delay_s / rer_s: the most specific value)
+    scs += c06place.loop_scenarios(ctx)
     for i, s in enumerate(scs):
         s["idx"] = i
     return scs
@@ -343,7 +350,9 @@ def run_loop(sc, root, helper):
     ca = mockca.MockCA(helper, opts={"valid_secs": sc["valid_secs"], "chain_len": 2})
     ca.start()
     cert = {"name": "crt", "identifiers": [{"dns": n, "challenge": "http-01"} for n in IDS], "key_type": "ecdsa_p256"}
-    if "delay_s" in sc:
+    if sc.get("place"):
+        cert.update(c06place.settings_for(sc, "certificate"))
+    elif "delay_s" in sc:
         cert["renew_delay"] = "%ds" % sc["delay_s"]
         cert["random_early_renew"] = "%ds" % sc["rer_s"]
     certs = [cert]
@@ -381,6 +390,9 @@ def run_loop(sc, root, helper):
             nb["account"] = "acc2"
         certs.append(nb)
     cfg, log = flow.make_config(d, ca.base + "/directory", certs, accounts)
+    if sc.get("place"):
+        cfg["global"].update(c06place.settings_for(sc, "global"))
+        cfg["endpoint"][0].update(c06place.settings_for(sc, "endpoint"))
     if sc["kind"] == "removed":
         # a second post-operation hook, run after the recorder's: the daemon cannot evaluate the certificate again
         # before it ends, the harness removes the file meanwhile
@@ -532,7 +544,8 @@ def judge_neighbourhood(ctx, sc, obs, robj):
     if sc.get("neighbour") and obs.get("nbr_gap_ns") is not None:
         # the neighbour itself: covering, 90 days of life, default renew_delay — not due while watched
         j = {"op": "c06", "disk": {"key_file": True, "cert_file": True, "cert": {"sans": [NBR], "not_after_in": 90 * DAY}},
-             "ids": [NBR], "delay_ns": str(30 * DAY * NS), "rer_ns": "0", "slack_ns": str(int(LOOP_SLACK_S * NS)),
+             "ids": [NBR], "delay_ns": str(sc.get("nbr_delay_s", 30 * DAY) * NS), "rer_ns": str(sc.get("nbr_rer_s", 0) * NS),
+             "slack_ns": str(int(LOOP_SLACK_S * NS)),
              "observed_ns": str(max(obs["nbr_gap_ns"], 0))}
         v = vlib.model([j])[0]
         if not (v["holds"] and v.get("fresh_ok", True)):
@@ -577,9 +590,11 @@ def judge_removed(ctx, sc, obs, robj):
 
 def part_loop(ctx, helper, root):
     scs = loop_scenarios(ctx)
-    with concurrent.futures.ThreadPoolExecutor(max_workers=12) as ex:
+    with concurrent.futures.ThreadPoolExecutor(max_workers=16) as ex:
         results = list(ex.map(lambda s: run_loop(s, root, helper), scs))
     for obs in results:
+        if obs["sc"].get("place"):
+            ctx.count("x:loop:placed:%s:%s" % (obs["sc"]["kind"], c06place.describe(obs["sc"]["place"])))
         judge_loop(ctx, obs)
 
 
@@ -601,7 +616,7 @@ def replay(ctx, obj):
             prepare(helper, t)
             check_triples(ctx, [t])
         else:
-            judge_loop(ctx, run_loop(dict(obj["sc"], idx=0), root, helper))
+            judge_loop(ctx, run_loop(c06place.resolve(dict(obj["sc"], idx=0)), root, helper))
     finally:
         helper.close()
         shutil.rmtree(root, ignore_errors=True)
